@@ -19,6 +19,7 @@ import (
 	"github.com/aperturerobotics/bifrost/link"
 	"github.com/aperturerobotics/bifrost/peer"
 	peer_controller "github.com/aperturerobotics/bifrost/peer/controller"
+	"github.com/aperturerobotics/bifrost/stream"
 	"github.com/aperturerobotics/bifrost/testbed"
 	"github.com/aperturerobotics/bifrost/transport"
 	tptc "github.com/aperturerobotics/bifrost/transport/controller"
@@ -192,6 +193,20 @@ func (w *world) checkpoint(out *vio.Out) {
 				}
 				if ml.GetRemotePeer() == pid(n) {
 					it["remote"] = n
+				}
+			}
+			// which link object does this value wrap? ask it for a stream and see whose OpenStream was called
+			before := map[string]int64{}
+			for n, fl := range w.links {
+				before[n] = fl.Opens.Load()
+			}
+			octx, ocancel := context.WithTimeout(context.Background(), 50*time.Millisecond)
+			_, _ = ml.OpenMountedStream(octx, "verif/probe", stream.OpenOpts{})
+			ocancel()
+			it["obj"] = "?"
+			for n, fl := range w.links {
+				if fl.Opens.Load() != before[n] {
+					it["obj"] = n
 				}
 			}
 			it["ctrl"] = "?"
